@@ -18,7 +18,7 @@ WORK = os.path.join(ROOT, "work")
 # which drivers exercise which unit / property
 UNIT_DRIVERS = {
     "cols": ["cols"], "rows": ["rows"], "delegates": ["cols", "rows"], "colcodec": ["colcodec"], "dates": ["dates"],
-    "errnames": ["errnames"], "refshift": ["refshift"], "refarms": ["refshift"], "strenv": ["refshift"], "dispsites": ["refshift"],
+    "errnames": ["errnames"], "fntables": ["fnnames"], "refshift": ["refshift"], "refarms": ["refshift"], "strenv": ["refshift"], "dispsites": ["refshift"],
     "colshift": ["refshift"], "finite": ["finite"], "atomic": ["atomic"], "modelatomic": ["atomic"], "hist": ["history"],
     "queue": ["history"], "arms": ["history", "select"], "record": ["history"], "select": ["select"],
     "uisel": ["selinv", "atomic"], "nav": ["selinv"], "argidx": ["builtins"], "styles": ["styles"], "f4": ["f4"],
@@ -26,7 +26,7 @@ UNIT_DRIVERS = {
 PROP_DRIVERS = {
     "C01": ["history"], "C02": ["history"], "C03": ["history"], "C04": ["atomic"], "C08": ["finite"], "C11": ["colcodec", "builtins", "f4"],
     "C12": ["refshift"], "C13": ["refshift"], "C14": ["refshift"], "C15": [], "C17": [], "C21": ["dates"], "C22": ["colcodec"],
-    "C23": ["errnames"], "C27": ["cols", "rows"], "C28": ["select", "selinv"], "C29": ["cols", "rows"], "C30": ["styles", "cols", "rows"], "C33": [], "C34": ["f4"],
+    "C23": ["errnames", "fnnames"], "C27": ["cols", "rows"], "C28": ["select", "selinv"], "C29": ["cols", "rows"], "C30": ["styles", "cols", "rows"], "C33": [], "C34": ["f4"],
 }
 
 
